@@ -286,4 +286,15 @@ def allAxis1 (a : A2 Bool) : List Bool := a.d.map (fun row => row.all id)
 /-- `np.argwhere(mask)` of a 1-D mask (as a flat list of positions) -/
 def argwhere1 (m : List Bool) : List Int := ((List.range m.length).filter (fun i => m.getD i false)).map (fun (i : Nat) => (i : Int))
 
+/-! ### vocabulary of the translated value arithmetic (`GenV`) -/
+
+/-- `v < s` (`lt = true`) / `v > s` element-wise against a scalar -/
+def cmpVS (lt : Bool) (v : List Int) (s : Int) : List Bool := v.map (fun x => if lt then decide (x < s) else decide (x > s))
+/-- `v > w` element-wise (arrays of one shape) -/
+def gtVV (v w : List Int) : List Bool := List.zipWith (fun x y => decide (x > y)) v w
+/-- fancy indexing of a vector by an index vector (`value[self.slots_with]`; indices in range) -/
+def takeI (v idx : List Int) : List Int := idx.map (fun i => get1 v i)
+/-- `np.prod` of an integer vector -/
+def prodI (l : List Int) : Int := l.foldl (· * ·) 1
+
 end Np
